@@ -38,6 +38,10 @@ def scenarios(ctx, thorough):
         sid += 1
         scs.append(S.mk(sid, "clock-%s-random" % clock, "order", mode="random", callers=6, calls=3, rotate=0, kinds=["object"],
                         gates=["send.genid"], seed=ctx.seed * 1000 + 700 + sid, clock=clock))
+    # a session store that fails: what the server sends is acknowledged all the same
+    sid += 1
+    scs.append(S.mk(sid, "ack-with-failing-store", "order", [{"a": "Probe", "tag": 90}, {"a": "Push", "what": "new_session_newsalt"}, {"a": "Settle"},
+               {"a": "Push", "what": "api_object"}, {"a": "Probe", "tag": 91}, {"a": "Rotate"}, {"a": "Probe", "tag": 92}, {"a": "Settle"}], failstore=True))
     # the server closes the connection: the client reconnects within the same session, seq_no and msg_id go on
     sid += 1
     scs.append(S.mk(sid, "seqno-across-reconnect", "order", [{"a": "Probe", "tag": 90}, {"a": "Probe", "tag": 91}, {"a": "Probe", "tag": 92},
